@@ -8,6 +8,8 @@
 #include <sstream>
 #include <vector>
 
+#include "../common/verif_hooks.h"
+
 template <typename T>
 class Vector
 {
@@ -70,6 +72,9 @@ Vector<T>::Vector(const Vector& other)
 {
 #pragma omp parallel for if (size_ > 10'000)
     for (int i = 0; i < size_; ++i) {
+        VERIF_ITER(i);
+        VERIF_RANGE(&values_[i], 1, true);
+        VERIF_RANGE(&other.values_[i], 1, false);
         values_[i] = other.values_[i];
     }
 }
@@ -91,6 +96,9 @@ Vector<T>& Vector<T>::operator=(const Vector& other)
 
 #pragma omp parallel for if (size_ > 10'000)
     for (int i = 0; i < size_; ++i) {
+        VERIF_ITER(i);
+        VERIF_RANGE(&values_[i], 1, true);
+        VERIF_RANGE(&other.values_[i], 1, false);
         values_[i] = other.values_[i];
     }
 
@@ -150,6 +158,7 @@ inline const T& Vector<T>::operator[](int index) const
 {
     assert(index >= 0);
     assert(index < size_);
+    VERIF_TOUCH(&values_[index], false);
     return values_[index];
 }
 // setter []
@@ -158,6 +167,7 @@ inline T& Vector<T>::operator[](int index)
 {
     assert(index >= 0);
     assert(index < size_);
+    VERIF_TOUCH(&values_[index], true);
     return values_[index];
 }
 // get vector's size
